@@ -70,8 +70,8 @@ var props = map[string]*propCfg{
 	},
 	"C01": {
 		ID: "C01", Level: "fault_enumeration", QuickSecs: 60, ThoroughSecs: 1200, HangIsVerdict: true,
-		Lanes: []lane{{Variant: "", Share: 7}, {Variant: "", Race: true, Share: 1}},
-		Rule: "one evaluation = one generated world (1-2 virtual repositories from the fragment library, the repository's testdata workflows and testdata projects, incl. defective callees and files outside any repository) run through Command.Main in one of the entry modes (files, no argument = directory walk, stdin, -config-file) under a seeded schedule with 0-3 planned faults: content faults on a channel file (torn at an offset, zeroed range, duplicated block, swapped blocks, 1-8 flipped bits, rewritten between two reads; on the first, second or every read), read errors (EIO, EACCES, ENOENT, EISDIR), a fault on the n-th I/O operation whatever its path, stat / getwd / directory-listing errors, stdin read error at an offset and short reads; distinct = distinct (world hash incl. fault plan, interleaving signature); non-trivial = at least one planned fault actually fired",
+		Lanes: []lane{{Variant: "", Share: 5}, {Variant: "tornenum", Share: 2}, {Variant: "", Race: true, Share: 1}},
+		Rule: "lane 'tornenum': one evaluation = one generated single-repository world and one of its channel files (workflow, action metadata, reusable workflow, actionlint.yaml) read back truncated at EVERY byte offset (thorough tier; every 16th offset from a seeded phase in the quick tier), one canonical run per offset. Other lanes: one evaluation = one generated world (1-2 virtual repositories from the fragment library, the repository's testdata workflows and testdata projects, incl. defective callees and files outside any repository) run through Command.Main in one of the entry modes (files, no argument = directory walk, stdin, -config-file) under a seeded schedule with 0-3 planned faults: content faults on a channel file (torn at an offset, zeroed range, duplicated block, swapped blocks, 1-8 flipped bits, rewritten between two reads; on the first, second or every read), read errors (EIO, EACCES, ENOENT, EISDIR), a fault on the n-th I/O operation whatever its path, stat / getwd / directory-listing errors, stdin read error at an offset and short reads; distinct = distinct (world hash incl. fault plan, interleaving signature); non-trivial = at least one planned fault actually fired",
 		Assumptions: []string{
 			"SCOPE: this check decides only the part of C01 that faults reach. The property also quantifies over all byte strings on each input channel; that is input fuzzing, a different technique, and is not decided here: a tree can pass this check and still panic on a crafted input",
 			"oracle: no panic in any task, no deadlock, termination within the step budget and the wall-clock watchdog (a hang is re-run alone for 60 s before it is reported), exit status in {0,1,3}, no panic text in the output; exit status 3 with a message is demanded only when a persistent read error makes an argument workflow file or the -config-file file unreadable, the workflows directory cannot be listed, or stdin fails",
